@@ -511,3 +511,11 @@ Proof.
     rewrite dr_trace_nth by lia. reflexivity.
 Qed.
 End DR_R.
+
+Lemma dca_resume (gradfcc gradg : Rvec -> Rvec) (n m : nat) (x : Rvec) :
+  iter (n + m) (dca_step gradfcc gradg) x = iter m (dca_step gradfcc gradg) (iter n (dca_step gradfcc gradg) x).
+Proof. apply iter_add. Qed.
+Lemma prox_dca_resume (gradg proxf : Rvec -> Rvec) (gamma : R) (n m : nat) (x : Rvec) :
+  iter (n + m) (prox_dca_step gradg proxf gamma) x
+  = iter m (prox_dca_step gradg proxf gamma) (iter n (prox_dca_step gradg proxf gamma) x).
+Proof. apply iter_add. Qed.
